@@ -154,6 +154,18 @@ def F14_dotted_setitem_dup_labels():
     nf2["n.w"] = flat * 10
     return nf2["n.w"].tolist() == [10, 20], nf2["n.w"].tolist()
 
+@case
+def F15_dotted_nest_name_query_dropna_sort():
+    fi = [10, 10, 30, 30, 30]
+    nf = NestedFrame({"x": [1.5, 2.5, 3.5]}, index=[10, 20, 30]).add_nested(
+        pd.DataFrame({"a": [1200., np.nan, 1202., 1203., 1204.], "t": [5., 4., 3., 2., 1.]}, index=fi), "a.b")
+    q = nf.query("`a.b`.`a` > 1200")["a.b"].nest.to_flat()["a"].tolist()
+    d = len(nf.dropna(subset="`a.b`.`a`")["a.b"].nest.to_flat())
+    s = nf.sort_values("`a.b`.`t`")["a.b"].nest.to_flat()["t"].tolist()
+    cols = list(nf.query("`a.b`.`a` > 1200").columns)
+    ok = q == [1202., 1203., 1204.] and d == 4 and s == [4., 5., 1., 2., 3.] and cols == ["x", "a.b"]
+    return ok, (q, d, s, cols)
+
 if __name__ == "__main__":
     bad = 0
     for k, (ok, d) in R.items():
